@@ -394,3 +394,37 @@ func vxH09Tag(n int, chancap int, other bool, dotu bool) {
 	vxAssert(!alien && cnt[0] <= 1 && cnt[1] <= 1 && cnt[2] <= 1 && cnt[0]+cnt[1]+cnt[2] == 3, "tags-conserved-after-tagfree")
 	vxReach("done")
 }
+
+// H09.recycle: request slots and tags are conserved by ReqAlloc/ReqFree for any number of simultaneously
+// allocated requests, in particular more than the slot cache holds (16): after n allocations and n frees every
+// tag is available again, either in the pool or attached to a cached slot.
+func vxH09Recycle(n int, ntags int) {
+	nc := vxNewCConn()
+	clnt := vxNewClient(nc, 128, false, ntags)
+	total := len(clnt.tagpool.id) + len(clnt.reqchan)
+	reqs := make([]*Req, n)
+	seen := map[uint16]bool{}
+	for i := range reqs {
+		reqs[i] = clnt.ReqAlloc()
+		vxAssert(!seen[reqs[i].tag], "allocated-tags-pairwise-distinct")
+		seen[reqs[i].tag] = true
+	}
+	vxAssert(len(clnt.tagpool.id)+len(clnt.reqchan) == total-n, "allocation-takes-one-tag-each")
+	order := vxChoose("free-order", 2)
+	for i := range reqs {
+		j := i
+		if order == 1 {
+			j = n - 1 - i
+		}
+		clnt.ReqFree(reqs[j])
+	}
+	vxAssert(len(clnt.tagpool.id)+len(clnt.reqchan) == total, "every-tag-available-again")
+	// and they can all be handed out again, still distinct
+	seen = map[uint16]bool{}
+	for i := 0; i < n; i++ {
+		r := clnt.ReqAlloc()
+		vxAssert(!seen[r.tag], "recycled-tags-pairwise-distinct")
+		seen[r.tag] = true
+	}
+	vxReach("done")
+}
